@@ -13,7 +13,7 @@ of the same module) are replaced by the helper's body:
     for x in self._h(a):          ->  __inl_k = <inlined>; for x in __inl_k:    (not for generators)
 
 A helper with several `return`s is wrapped in `for __once_k in (None,):` with `return e` -> `x = e; break`; helpers whose
-`return` sits inside one of their own loops, generators, helpers with *args/**kwargs, decorators other than staticmethod,
+`return` sits inside one of their own loops, generators, helpers with *args (or with **kwargs used other than forwarded as **kwargs), decorators other than staticmethod,
 nested functions or global/nonlocal are left as calls (the rule then sees the call, as before).  Callee locals that clash
 with names of the caller are renamed (suffix __hN); a parameter whose argument is the identically named caller variable is
 left alone.  Names listed in `keep` are never inlined (anchors a rule reasons about separately).  Line numbers of inlined
@@ -103,6 +103,14 @@ class FlatView(object):
                     self_.generic_visit(node)
                     if isinstance(node.test, ast.Constant):
                         return node.body if node.test.value else node.orelse
+                    return node
+
+                def visit_If(self_, node):
+                    # the statement form of the same (pynorm lowers `x = A if c else B` into it): a constant test selects an arm
+                    self_.generic_visit(node)
+                    if isinstance(node.test, ast.Constant):
+                        arm = node.body if node.test.value else node.orelse
+                        return arm if arm else ast.copy_location(ast.Pass(), node)
                     return node
             f2 = FoldIfExp().visit(f2)
             ast.fix_missing_locations(f2)
@@ -200,10 +208,21 @@ def _leaves_loop(body):
     return visit(body)
 
 
+def _kwarg_forwarded_only(h):
+    """the **kwargs parameter of h is used only as `**kwargs` in calls (forwarded): its keywords can be written out at the call"""
+    kw = h.args.kwarg.arg
+    fwd = {id(k.value) for c in ast.walk(h) if isinstance(c, ast.Call) for k in c.keywords if k.arg is None and isinstance(k.value, ast.Name)
+           and k.value.id == kw}
+    return all(id(n) in fwd for n in ast.walk(h) if isinstance(n, ast.Name) and n.id == kw) and not any(
+        isinstance(n, ast.Name) and n.id == kw and isinstance(n.ctx, (ast.Store, ast.Del)) for n in ast.walk(h))
+
+
 def _inlinable(h):
     if isinstance(h, ast.AsyncFunctionDef):
         return False
-    if h.args.vararg or h.args.kwarg or h.args.posonlyargs:
+    if h.args.vararg or h.args.posonlyargs or h.args.kwonlyargs and h.args.kwarg:
+        return False
+    if h.args.kwarg and not _kwarg_forwarded_only(h):
         return False
     for d in h.decorator_list:
         if not (isinstance(d, ast.Name) and d.id == "staticmethod"):
@@ -269,7 +288,10 @@ class _Flattener(object):
             if not params or params[0] != "self":
                 return None
             params = params[1:]
-        if any(isinstance(a, ast.Starred) for a in call.args) or any(k.arg is None for k in call.keywords):
+        if any(isinstance(a, ast.Starred) for a in call.args):
+            return None
+        if any(k.arg is None for k in call.keywords) and not (h.args.kwarg is not None and all(
+                isinstance(k.value, ast.Name) for k in call.keywords if k.arg is None)):
             return None
         if len(call.args) > len(params):
             return None
@@ -288,9 +310,19 @@ class _Flattener(object):
         binding = {}
         for p, a in zip(params, call.args):
             binding[p] = a
+        extra = []
+        stars = []
         for kw in call.keywords:
-            if kw.arg not in params or kw.arg in binding:
+            if kw.arg is None:
+                stars.append(kw.value)       # the caller's own **kwargs, forwarded as they are
+                continue
+            if kw.arg in binding:
                 return None
+            if kw.arg not in params:
+                if h.args.kwarg is None:
+                    return None
+                extra.append(kw)
+                continue
             binding[kw.arg] = kw.value
         defaults = h.args.defaults
         dparams = [a.arg for a in h.args.args][len(h.args.args) - len(defaults):]
@@ -318,6 +350,26 @@ class _Flattener(object):
         body = holder.body
         pre = []
         line = getattr(call, "lineno", 1)
+        if h.args.kwarg is not None:
+            # the keywords collected by **kwargs are bound to locals at the call and written out wherever the helper forwards them
+            kwname = mapping.get(h.args.kwarg.arg, h.args.kwarg.arg)
+            names = []
+            for kw in extra:
+                loc = "%s__%s__h%d" % (kwname, kw.arg, k)
+                pre.append(ast.copy_location(ast.Assign([ast.Name(loc, ast.Store())], copy.deepcopy(kw.value)), call))
+                self.caller_names.add(loc)
+                names.append((kw.arg, loc))
+            for c in ast.walk(holder):
+                if isinstance(c, ast.Call):
+                    out = []
+                    for kx in c.keywords:
+                        if kx.arg is None and isinstance(kx.value, ast.Name) and kx.value.id == kwname:
+                            out.extend(ast.keyword(arg=a_, value=ast.Name(l_, ast.Load())) for a_, l_ in names)
+                            out.extend(ast.keyword(arg=None, value=copy.deepcopy(sv)) for sv in stars)
+                        else:
+                            out.append(kx)
+                    c.keywords = out
+            ast.fix_missing_locations(holder)
         for p in params:
             if p in same:
                 continue
